@@ -156,6 +156,22 @@ def correspond(ctx):
                 o = 'EXC:' + type(ex).__name__
                 ctx.violation('c11:exception:' + type(ex).__name__, 'building/evaluating `%s` raised %s: %s' % (t, type(ex).__name__, ex), {'expr': t})
             lines.append('expr ' + t); obs.append(o); toks.append(t)
+        # directed: constant terms with structure (entries that cancel, all zero, all equal) under scalar multiplication from either side and
+        # division - the constant term of c*f, f*c, f/c is c*b, whatever b looks like
+        for j, L in enumerate(g.lens):
+            if L < 2: continue
+            for z in ([1.0, -1.0] + [0.0] * (L - 2), [0.5, 0.25] + [0.0] * (L - 3) + [-0.75] if L >= 3 else [2.0, -2.0], [0.0] * L, [3.0] * L):
+                zc = cvxopt.matrix(z)
+                for c in (2.0, -4.0, 0.5):          # powers of two: the quotients are exact in doubles
+                    for nm, build, t in (('f/c', lambda: (g.vars[j] + zc) / c, 'sdiv %s add var %d const %s' % (frs(c), j, vtok(z))),
+                                         ('f*c', lambda: (g.vars[j] + zc) * c, 'smul %s add var %d const %s' % (frs(c), j, vtok(z))),
+                                         ('c*f', lambda: c * (zc + g.vars[j]), 'smul %s add const %s var %d' % (frs(c), vtok(z), j)),
+                                         ('abs+b', lambda: (abs(g.vars[j]) - zc) / c if c > 0 else (abs(g.vars[j]) - zc) * (-c),
+                                          ('sdiv %s sub abs var %d const %s' % (frs(c), j, vtok(z))) if c > 0 else ('smul %s sub abs var %d const %s' % (frs(-c), j, vtok(z))))):
+                        try:
+                            e = build(); o = 'len=%d val=%s' % (len(e), vtok(list(e.value())))
+                        except (TypeError, ValueError, IndexError, NotImplementedError): o = 'refused'
+                        lines.append('expr ' + t); obs.append(o); toks.append(t)
     # non-aliasing: every operator returns a new object; mutating the result in place leaves the operands as they were
     n2 = 300 if ctx.quick() else 6000
     for v, x in zip(g.vars, vals[0]): v.value = cvxopt.matrix(x)
